@@ -42,7 +42,7 @@ ANCHORS = [
     ("deepali.utils.simpleitk.torch", "image_from_tensor"),
     ("deepali.utils.simpleitk.torch", "tensor_from_image"),
 ]
-N_CASES = {"quick": 240, "thorough": 12000}
+N_CASES = {"quick": 240, "thorough": 40000}
 BUDGET = {"quick": 300, "thorough": 3000}
 
 
